@@ -174,7 +174,7 @@ pub fn run(ctx: &Ctx, rep: &mut Report) {
     rep.assume("Neon = the repository's engine_neon.rs compiled against an emulation of 7 intrinsics with architectural semantics");
 
     let mut cases: Vec<Kv> = Vec::new();
-    let nmax = if ctx.thorough() { 12 } else { 8 };
+    let nmax = if ctx.thorough() { 12 } else { 10 };
     for n in 0..=nmax {
         let size = 1usize << n;
         for &eng in &engines {
@@ -198,6 +198,39 @@ pub fn run(ctx: &Ctx, rep: &mut Report) {
         }
     }
     rep.bound("transform", J::s(format!("n <= {nmax}: every truncated_size; full (pos,delta,len) product for n <= 7, a fixed 1/6 (n=8,9) or 1/24 (n>=10) rotation of it above")));
+    // every size class up to the whole field, at a few truncated sizes and skew offsets (both tiers)
+    for &eng in &engines {
+        for n in (nmax + 1)..=16u32 {
+            let size = 1usize << n;
+            for dir in ["fft", "ifft"] {
+                for trunc in [1usize, size / 4 + 1, size / 2 - 1, size / 2 + 1, size - 1, size] {
+                    for delta in [0usize, size] {
+                        if delta + size > 65536 || (!ctx.thorough() && (eng == "naive" || eng == "neonemu") && n >= 14 && delta != 0) {
+                            continue;
+                        }
+                        cases.push(Kv::new().with("prim", dir).with("eng", eng).with("n", n).with("trunc", trunc).with("pos", 0).with("delta", delta).with("len64", 1).with("seed", seed));
+                    }
+                }
+            }
+        }
+    }
+    rep.bound("transform_all_size_classes", J::s(format!("n = {}..16: 6 truncated sizes x skew offsets {{0, size}}", nmax + 1)));
+    // long shards: lengths above 64 and 128 blocks with a remainder
+    for &eng in &engines {
+        for n in [2u32, 3, 5] {
+            let size = 1usize << n;
+            for dir in ["fft", "ifft"] {
+                for len64 in [65usize, 130, 257] {
+                    for trunc in [size, size / 2 + 1] {
+                        for delta in [0usize, size] {
+                            cases.push(Kv::new().with("prim", dir).with("eng", eng).with("n", n).with("trunc", trunc).with("pos", 1).with("delta", delta).with("len64", len64).with("seed", seed));
+                        }
+                    }
+                }
+            }
+        }
+    }
+    rep.bound("transform_long_shards", J::s("n in {2,3,5}, shard length 65, 130, 257 blocks"));
     if ctx.thorough() {
         for &eng in &engines {
             for dir in ["fft", "ifft"] {
